@@ -79,9 +79,12 @@ type RunResult struct {
 	Fingerprint string           `json:"fingerprint"`
 	NonTrivial  bool             `json:"nontrivial"`
 	Harness     string           `json:"harness_error,omitempty"`
-	Schedule    *Schedule        `json:"schedule,omitempty"`
-	Ops         int              `json:"ops"`
-	Log         []string         `json:"log,omitempty"`
+	// AppDigest chains the app hash of every block the primary committed: equal seeds must
+	// give equal digests in every process.
+	AppDigest string    `json:"app_digest"`
+	Schedule  *Schedule `json:"schedule,omitempty"`
+	Ops       int       `json:"ops"`
+	Log       []string  `json:"log,omitempty"`
 }
 
 const ampleGas = 30_000_000
@@ -614,6 +617,12 @@ func (w *World) execBlock(bp *BlockPlan) bool {
 		return false
 	}
 	w.Count("blocks", 1)
+	{
+		h := sha256.New()
+		h.Write(w.appDigest[:])
+		h.Write(res.AppHash)
+		copy(w.appDigest[:], h.Sum(nil))
+	}
 	if w.Height > 1 {
 		w.checkLedger()
 	}
@@ -966,6 +975,7 @@ func (w *World) finish(res *RunResult, prop *Property) {
 	res.SimNs = int64(w.SimSpan)
 	res.States = len(w.States)
 	res.Fingerprint = hex.EncodeToString(w.fp[:8])
+	res.AppDigest = hex.EncodeToString(w.appDigest[:12])
 	res.Ops = w.Sched.NumOps()
 	if prop.NonTrivial != nil {
 		res.NonTrivial = prop.NonTrivial(w.Counts)
